@@ -2,7 +2,7 @@
 From Coq Require Import ZArith List Bool.
 From RecordUpdate Require Import RecordSet.
 Import RecordSetNotations.
-From VD Require Import Base.Bytes Base.Text Model.Auth Model.Engine Model.Rfb Spec.DES Proofs.DESP Proofs.AuthP Gen.Exprs Proofs.ExprTie.
+From VD Require Import Base.Bytes Base.Text Model.Auth Model.Engine Model.Rfb Spec.DES Proofs.DESP Proofs.AuthP Gen.ExprsAuth Proofs.TieAuth.
 Import ListNotations.
 Open Scope Z_scope.
 
@@ -86,7 +86,7 @@ Example C14_ard_leading_zero :
 Proof. vm_compute. split; reflexivity. Qed.
 
 (** The key of the model is the source's own: padding (fill character, width, precision of the format specification) and the
-    per-byte bit reversal are regenerated from rfb._vnc_des on every run (gen/exprs.py, [Gen/Exprs.v]). *)
+    per-byte bit reversal are regenerated from rfb._vnc_des on every run (gen/exprs.py, [Gen/Exprs*.v]). *)
 Theorem C14_key_is_source : forall pw,
   vnc_key pw =
   let p := firstn gen_key_precision pw in
